@@ -72,3 +72,8 @@ Example c05_example :
   /\ tab_get (fst (fst (rebuild_rows [0; 0] MMax
         [mkRow [VId 0] (VInt 5) false; mkRow [VId 1] (VInt 9) false] []))) [VId 0] = Some (VInt 9).
 Proof. split; vm_compute; reflexivity. Qed.
+
+(** a NON-selective lattice: the merged value differs from both writes *)
+Example c05_example_or :
+  int_get (insert_all MOr [] (mk_rows [([VId 0], 1%Z); ([VId 0], 2%Z); ([VId 0], 4%Z)])) [VId 0] = Some 7%Z.
+Proof. vm_compute; reflexivity. Qed.
